@@ -19,3 +19,4 @@ pub fn c01_twin_reach() {
     let y = u32::_deserialize_full_inner(&mut sl).unwrap();
     assert!(y != x, "TWIN: must be violated");
 }
+
